@@ -423,7 +423,14 @@ func (cl *w1SimClient) onReply(rep *protocol.Reply) {
 		}
 	}
 	cl.frames = append(cl.frames, f)
-	w.s.Event("c%d frame %s id=%d ch=%s err=%d off=%d code=%d", cl.idx, f.Kind, f.ReplyID, f.Ch, f.ErrCode, frameOffset(&f), f.Code)
+	pd := ""
+	if f.Pub != nil {
+		pd = f.Pub.Data
+		if len(pd) > 28 {
+			pd = pd[:28]
+		}
+	}
+	w.s.Event("c%d frame %s id=%d ch=%s err=%d off=%d code=%d %s", cl.idx, f.Kind, f.ReplyID, f.Ch, f.ErrCode, frameOffset(&f), f.Code, pd)
 	// SDK-like state
 	switch f.Kind {
 	case "connect":
@@ -896,6 +903,7 @@ type w1PubSub struct {
 	node       BrokerEventHandler
 	subscribed map[string]int // channel -> number of successful Subscribe minus Unsubscribe calls
 	inHistRace bool
+	resubscribed map[string]bool
 }
 
 func (b *w1PubSub) RegisterBrokerEventHandler(h BrokerEventHandler) error {
@@ -913,6 +921,14 @@ func (b *w1PubSub) Subscribe(ch ...string) error {
 		return errors.New("sim broker subscribe error")
 	}
 	for _, c := range ch {
+		if b.subscribed[c] == 1 {
+			// first-subscriber again while the deferred broker unsubscribe of the previous
+			// "last subscriber left" has not run yet
+			if b.resubscribed == nil {
+				b.resubscribed = map[string]bool{}
+			}
+			b.resubscribed[c] = true
+		}
 		b.subscribed[c] = 1 // Broker.Subscribe and Unsubscribe are idempotent set operations
 		b.w.s.Event("broker subscribe %s", c)
 	}
